@@ -8,7 +8,6 @@ import time
 from . import env
 
 LEAN_DIR = os.path.join(env.VERIF, "lean")
-DRIVER = os.path.join(LEAN_DIR, ".lake", "build", "bin", "vdriver")
 ALLOWED_AXIOMS = {"propext", "Classical.choice", "Quot.sound"}
 FORBIDDEN = re.compile(
     r"\bsorry\b|\badmit\b|^\s*axiom\s|native_decide|bv_decide|implemented_by|\bunsafe\s|maxHeartbeats\s+0\b",
@@ -122,9 +121,10 @@ def declared_theorems(pid):
 class Driver:
     """Batch client of the compiled line-protocol driver."""
 
-    def __init__(self):
-        if not os.path.exists(DRIVER):
-            raise env.InfraError("vdriver not built: run setup (lake build)")
+    def __init__(self, pid):
+        self.exe = os.path.join(LEAN_DIR, ".lake", "build", "bin", "vd_%s" % pid)
+        if not os.path.exists(self.exe):
+            raise env.InfraError("%s not built: run setup (lake build)" % self.exe)
 
     def ask(self, lines, timeout=1200):
         if not lines:
@@ -133,7 +133,7 @@ class Driver:
         for l in lines:
             if "\n" in l:
                 raise ValueError("newline inside protocol line: %r" % l)
-        r = subprocess.run([DRIVER], input=data.encode(), capture_output=True, timeout=timeout)
+        r = subprocess.run([self.exe], input=data.encode(), capture_output=True, timeout=timeout)
         if r.returncode != 0:
             raise env.InfraError("vdriver failed: %s" % r.stderr.decode()[-2000:])
         out = r.stdout.decode().split("\n")
